@@ -546,6 +546,16 @@ func checkShadowStruct(w *World, r *Result) {
 			if bl, ok := y.(*ast.BasicLit); ok {
 				txt += bl.Value
 			}
+			// concatenations read as the equivalent format
+			if as, ok := y.(*ast.AssignStmt); ok {
+				for _, rhs := range as.Rhs {
+					if sp := sprintfView(info, rhs); sp != nil {
+						if f, _ := verbArgs(info, sp); f != "" {
+							txt += " " + f
+						}
+					}
+				}
+			}
 			return true
 		})
 		if !strings.Contains(txt, "Wrapper") {
@@ -559,8 +569,24 @@ func checkShadowStruct(w *World, r *Result) {
 		if call, ok := cond.(*ast.CallExpr); ok {
 			if h := w.Funcs[calleeOf(info, call)]; h != nil && h.Decl.Body != nil {
 				ast.Inspect(h.Decl.Body, func(y ast.Node) bool {
-					if ret, ok := y.(*ast.ReturnStmt); ok && len(ret.Results) == 1 && okOfUnionAssert(h.Decl, ret.Results[0]) {
+					ret, ok := y.(*ast.ReturnStmt)
+					if !ok || len(ret.Results) != 1 {
+						return true
+					}
+					if okOfUnionAssert(h.Decl, ret.Results[0]) {
 						okRW = true
+					}
+					// the predicate may take the type itself: `isUnion(field.Type)` with `_, ok := ty.(*an.Union)`
+					if id := identOf(ret.Results[0]); id != nil {
+						for _, d := range defsIn(info, h.Decl, objOf(info, id)) {
+							ta, isTA := ast.Unparen(d).(*ast.TypeAssertExpr)
+							if !isTA || ta.Type == nil || !strings.HasSuffix(es(ta.Type), "Union") || identOf(ta.X) == nil {
+								continue
+							}
+							if pi := paramIndex(h, objOf(info, identOf(ta.X))); pi >= 0 && pi < len(call.Args) && strings.HasSuffix(es(call.Args[pi]), ".Type") {
+								okRW = true
+							}
+						}
 					}
 					return true
 				})
